@@ -1,6 +1,7 @@
 #!/bin/bash
 # Builds the framework from files on disk only (offline): tools, generated protobuf, instrumented overlay, harness binary.
-cd /verif || exit 2
+V=$(cd "$(dirname "$0")" && pwd); export VERIF_ROOT=$V
+cd "$V" || exit 2
 mkdir -p .build evidence out
-scripts/build.sh /verif/.build/setup || exit 2
+scripts/build.sh "$V/.build/setup" || exit 2
 echo "setup ok"
